@@ -211,7 +211,45 @@ func refFrame(id, pa uint8, cf cfgT, bits uint8, full uint16, n int, salt byte) 
 	return adtsref.Write(h, raw), raw
 }
 
+// retention: the bytes returned by Encode stay what they were when further frames are encoded (same or another encoder).
+func retention(c *hl.Ctx) {
+	cfgs := []cfgT{{2, 4, 2}, {1, 1, 1}, {29, 12, 7}}
+	lens := []int{1, 7, 300, 8184}
+	for ai, ca := range cfgs {
+		for _, la := range lens {
+			for bi, cb := range cfgs {
+				for _, lb := range lens {
+					if !c.Mine(ai*97 + la + bi*13 + lb) {
+						continue
+					}
+					c.Eval()
+					asc := adtsref.PackASC(ca.Obj, ca.Sfi, ca.Ch, 0)
+					m, _ := aac.NewADTS()
+					m.SetASC(asc[:])
+					a, err := m.Encode(payload(la, 9))
+					if err != nil {
+						continue
+					}
+					keep := append([]byte{}, a...)
+					asc2 := adtsref.PackASC(cb.Obj, cb.Sfi, cb.Ch, 0)
+					m.SetASC(asc2[:])
+					m.Encode(payload(lb, 10))
+					m2, _ := aac.NewADTS()
+					m2.SetASC(asc2[:])
+					m2.Encode(payload(lb, 11))
+					if !bytes.Equal(a, keep) {
+						c.Violation("retention/encoded-frame-overwritten", fmt.Sprintf("the frame returned by Encode(%+v, %d bytes) changed after Encode(%+v, %d bytes)", ca, la, cb, lb), encCase{Part: "retention", Obj: ca.Obj, Sfi: ca.Sfi, Ch: ca.Ch, Len: la})
+						return
+					}
+					c.Nontrivial(fmt.Sprint("ret", ca, la, cb, lb))
+				}
+			}
+		}
+	}
+}
+
 func run(c *hl.Ctx) {
+	retention(c)
 	c.Rule("E3 bounded-exhaustive: all 65536 two-byte ASC values; accepted configs (420) x raw lengths; 2-3 frame concatenations; reference-writer frames over id x protection x profile x sfi x channels x header bits x fullness x lengths. Non-trivial = distinct case that decoded successfully to a non-empty raw block (or accepted ASC).")
 	c.Assume("reference ADTS writer/parser written from ISO/IEC 13818-7 6.2 is correct", "payload bytes are a fixed position-dependent pattern with embedded 0xFFF1 lookalikes")
 	checkASC(c)
